@@ -166,7 +166,10 @@ def r44(facts, res):
         return
     b = bs[0]
     loops = b.loops()
-    isb = b.calls_named('iter_set_bits')
+    # the scratch look-ahead set (what Itemset::add is given) is not the pending-work bit field: a debug_assert over it is no anchor
+    _adds = [t for _bb, t in b.calls_named('add') if 'Itemset' in (cpath(t) or '') and len(t['args']) >= 4]
+    _ctx = b.op_root(_adds[0]['args'][3])[0] if _adds else None
+    isb = [(bb, t) for bb, t in b.calls_named('iter_set_bits') if not (t['args'] and _ctx is not None and b.op_root(t['args'][0])[0] == _ctx)]
     if len(isb) != 1 or not loops:
         res.lost(R, 'expected one iter_set_bits call (the take from the pending bit field) in Itemset::close, found %d' % len(isb))
         return
